@@ -343,6 +343,7 @@ func escapeSeg(s string) string {
 func genCase(t *rapid.T) *Case {
 	c := &Case{}
 	c.G.TS = gen.Pick(t, []int{rt.TSNone, rt.TSIgnore, rt.TSRedirect, rt.TSRedirect}, "globalTS")
+	c.G.OneTxn = gen.Chance(t, 1, 4, "onetxn")
 	if gen.Chance(t, 1, 3, "competition") {
 		// several slash-adjusted candidates of different priority for the same request
 		pats, paths := gen.Competition(t)
